@@ -190,7 +190,9 @@ fn judge_step(
     let dden = ref_dist.abs().max(tol.d2(ref_dist / n as f64, 0.0) * n as f64).max(f64::MIN_POSITIVE);
     // the tree computes the distortion from node sums (count * |mean - c|^2 + stored cost): for data far from
     // the origin the means carry an absolute error ~eps*s, i.e. sum_i 2*sqrt(d2_i)*eps*s <= 2*eps*s*sqrt(n*dist)
-    let dallow = tol.dist_rel * dden + 4.0 * tol.eps_k * tol.s * (n as f64 * ref_dist.abs()).sqrt();
+    // + the effect of leaf merging (every merged row may move by up to 2e-10)
+    let merge = 2e-10;
+    let dallow = tol.dist_rel * dden + 4.0 * tol.eps_k * tol.s * (n as f64 * ref_dist.abs()).sqrt() + 4.0 * merge * ((n as f64 * ref_dist.abs()).sqrt() + n as f64 * merge);
     rep.max(if f32m { "distortion_err_over_allowed_f32" } else { "distortion_err_over_allowed_f64" }, derr / dallow.max(f64::MIN_POSITIVE));
     if !(derr <= dallow) {
         return Err((
@@ -473,6 +475,7 @@ impl C12 {
 
 fn gen_data(r: &mut Xo, n: usize, p: usize, f32m: bool) -> (Vec<Vec<f64>>, &'static str) {
     let kind = r.below(7);
+    // scales stay >= 1e-2: blob spreads are then >= 1e-4, six orders above the tree's absolute 1e-10 merge radius
     let scale = *r.pick(&[0.01, 1.0, 1.0, 10.0, 1000.0]);
     let offset = if r.chance(0.3) { scale * r.range(-20.0, 20.0) } else { 0.0 };
     let mut data: Vec<Vec<f64>> = Vec::with_capacity(n);
